@@ -262,10 +262,10 @@ func (g *gen) input(edge bool) Input {
 				rec = RecIn{Tag: g.tag(), Val: int64(r.Range(1, 40))}
 			case "save":
 				switch {
-				case nseed > 0 && r.Chance(1, 2):
+				case nseed > 0 && r.Chance(1, 3):
 					id := int64(r.Range(1, nseed))
 					rec = RecIn{ID: id, Tag: id, Val: int64(r.Range(1, 40))}
-				case r.Chance(1, 2) && isStruct(in.Shape):
+				case r.Chance(2, 3) && isStruct(in.Shape):
 					t := g.tag()
 					rec = RecIn{ID: t, Tag: t, Val: int64(r.Range(1, 40))} // primary key set, no such row: upsert fallback
 				default:
@@ -447,7 +447,7 @@ func main() {
 
 	g := &gen{r: lib.NewRng(a.Seed)}
 	r := g.r
-	budget := 450
+	budget := 700
 	if a.Tier == "thorough" {
 		budget = 5000
 	}
@@ -495,6 +495,43 @@ func main() {
 			in.Sets = nil
 		}
 		add(kind, in)
+	}
+	// directed scenarios: constructs a random stream reaches too rarely, each with a failure at every
+	// invocation (quick tier: when at most 12 invocations)
+	kidsOf := func(base int64) []RecIn {
+		return []RecIn{{Tag: base + 1, Val: 1}, {Tag: base + 2, Val: 2}}
+	}
+	for _, sk := range []bool{false, true} {
+		for _, txm := range []string{"default", "outer", "skipdefault"} {
+			for _, ty := range []string{"T1", "T2", "T5"} {
+				d := []Input{
+					// Save with a primary key that matches no row: update hooks, then the hook-less upsert fallback
+					{Op: "save", Type: ty, Shape: "ptr_struct", Recs: []RecIn{{ID: 9, Tag: 9, Val: 90}}, Seed: g.seed(3)},
+					// associations carrying their own hooks
+					{Op: "create", Type: ty, Shape: "ptr_slice_val", Recs: []RecIn{
+						{Tag: 101, Val: 1, Boss: &RecIn{Tag: 301, Val: 3}, Kids: kidsOf(200), Pets: []RecIn{{Tag: 401, Val: 4}}},
+						{Tag: 102, Val: 2, Kids: []RecIn{{Tag: 211, Val: 5}}}}},
+					{Op: "create", Type: ty, Shape: "ptr_struct", Recs: []RecIn{{Tag: 101, Val: 1, Boss: &RecIn{Tag: 301, Val: 3}, Kids: kidsOf(200)}}},
+					{Op: "save", Type: ty, Shape: "ptr_struct", Recs: []RecIn{{ID: 1, Tag: 1, Val: 11, Kids: kidsOf(200), Pets: []RecIn{{Tag: 401, Val: 4}}}}, Seed: g.seed(2)},
+					{Op: "update_column", Type: ty, Shape: "ptr_struct", Recs: []RecIn{{ID: 1, Tag: 1, Val: 11, Kids: kidsOf(200)}}, Seed: g.seed(2), Pay: 61, PayVia: "map_db"},
+					{Op: "updates", Type: ty, Shape: "ptr_slice_ptr", Recs: []RecIn{{ID: 1, Tag: 1, Val: 10}, {ID: 3, Tag: 3, Val: 30}}, Seed: g.seed(3), Pay: 62, PayVia: "map_field"},
+					{Op: "delete", Type: ty, Shape: "slice_val", Recs: []RecIn{{ID: 2, Tag: 2, Val: 20}, {ID: 3, Tag: 3, Val: 30}}, Seed: g.seed(4)},
+					{Op: "find", Type: ty, Shape: "ptr_slice_ptr", Seed: g.seed(3), Limit: 2},
+				}
+				for _, in := range d {
+					in.Skip, in.TxMode = sk, txm
+					if in.PayVia == "" {
+						in.PayVia = "map_db"
+					}
+					in.SetKey = "field"
+					if sk && txm != "default" && ty != "T1" {
+						continue
+					}
+					pilot := runOne(in)
+					withFaults("directed", in, a.Tier == "thorough" || (len(pilot.Log) <= 12 && ty == "T1" && txm == "default"))
+				}
+			}
+		}
 	}
 	for out != nil && len(out.Cases) < budget {
 		edge := r.Chance(15, 100)
